@@ -1465,10 +1465,19 @@ func (x *Exec) loadField(s *State, ref *Term, si *structInfo, i int) *Term {
 		if v.K == TApp && v.Op == "select" {
 			_ = key
 			if h.K == TVar && strings.HasSuffix(h.Op, "@0") {
+				// a cell of the ENTRY heap describes an object only if that object existed at entry: for such an
+				// object what it refers to was allocated before entry. A cell at a reference allocated later (the
+				// fresh result of an `assigns nothing` callee) is not constrained by this.
 				x.entryCounters = true
+				entryInv := x.typeInv(s, v, ft, 0)
+				x.entryCounters = false
+				if ref.K == TVar && strings.HasPrefix(ref.Op, "p_") {
+					s.assume(entryInv) // a parameter / receiver: allocated at entry
+				} else {
+					s.assume(Implies(Cmp("<", ref, Var("$alloc@0", SInt)), entryInv))
+				}
 			}
 			s.assume(x.typeInv(s, v, ft, 0))
-			x.entryCounters = false
 		}
 		x.assumeObjInv(s, v, ft)
 	}
